@@ -265,7 +265,10 @@ def bv_allow(thm, ax):
 
 def run(ctx):
     rng = vlib.Rng(ctx.seed)
-    ctx.prove(['Librfn.Props.C12'], REQUIRED, allow_extra_axioms=bv_allow)
+    import sys
+    sys.path.insert(0, os.path.dirname(os.path.abspath(__file__)))
+    import tie_common
+    tie_common.prove(ctx, ['PackSeq'], ['Librfn.Props.C12'], REQUIRED, 'Librfn.Props.C12Tie', 'Librfn.C12.Tie', extra_allow=bv_allow)
     exe = harness(ctx)
     hs = pw.corpus('C12')
     reps = 1 if ctx.tier == 'quick' else 6
